@@ -476,3 +476,15 @@ pub fn raise_nofile() {
 pub fn raw(s: &UnixStream) -> RawFd {
     s.as_raw_fd()
 }
+
+/// Number of ready events on an epoll instance right now (timeout 0; level-triggered sources are
+/// not consumed by looking).
+pub fn epoll_ready(epfd: RawFd) -> usize {
+    let mut evs: [libc::epoll_event; 8] = unsafe { std::mem::zeroed() };
+    let n = unsafe { libc::epoll_wait(epfd, evs.as_mut_ptr(), 8, 0) };
+    if n < 0 {
+        0
+    } else {
+        n as usize
+    }
+}
